@@ -91,6 +91,28 @@ def QUERIES(tier):
                              subtrees=[['_1', '_2']]),
         'u-1.28': Query({'': G({'VCPU': None, 'DISK_GB': None})},
                         version='1.28'),
+        # three groups, the same class in two groups that are not adjacent
+        'u+1+2-nonadj': Query({'': G({'VCPU': None}), '_1': G({'DISK_GB': 1}),
+                               '_2': G({'VCPU': None})}, policy='none'),
+        '1+2+3-nonadj': Query({'_1': G({'VCPU': None}), '_2': G({'DISK_GB': 1}),
+                               '_3': G({'VCPU': 1})}, policy='none'),
+        '1+2+3-isolate': Query({'_1': G({'VCPU': None}), '_2': G({'DISK_GB': 1}),
+                                '_3': G({'VCPU': 1})}, policy='isolate'),
+        # anchor filters together with groups a sharing provider can satisfy
+        'u+D-root-notsharing': Query({'': G({'VCPU': None}),
+                                      '_D': G({'DISK_GB': None})},
+                                     rootreq=([], [cands.SHARING])),
+        'u+D-rootreq': Query({'': G({'VCPU': None}),
+                              '_D': G({'DISK_GB': None})},
+                             rootreq=([T1], [])),
+        'D-rootreq': Query({'_D': G({'DISK_GB': None})}, rootreq=([T1], [])),
+        'u-member-unknown': Query({'': G({'VCPU': None}, mem=[[1], [9]])}),
+        'u+1-member': Query({'': G({'VCPU': None}),
+                             '_1': G({'DISK_GB': 1}, mem=[[1]])},
+                            policy='none'),
+        'u+1-forb-req': Query({'': G({'VCPU': None}, forb=[T1]),
+                               '_1': G({'VCPU': 1}, req=[[T1]])},
+                              policy='none'),
     }
     return qs
 
@@ -101,9 +123,18 @@ QUICK = [('flat', 'u-vcpu-disk', False), ('tree-t', 'u-req', False),
          ('tree', 'u-intree', False), ('tree', 'u+1-nopolicy', False),
          ('flat-s', 'u+1-none', False), ('nest-s', 'u-vcpu-disk', False),
          ('tree-t', 'u-rootreq', False), ('two-i', '1+2-subtree', False),
-         ('two', 'u-vcpu-disk', True), ('tree-a', 'u-notmember', False)]
+         ('two', 'u-vcpu-disk', True), ('tree-a', 'u-notmember', False),
+         ('tree', 'u+1+2-nonadj', False), ('flat-t', 'u+D-rootreq', False),
+         ('flat', 'u+D-root-notsharing', False)]
 
 THOROUGH_EXTRA = [
+    ('two', 'u+1+2-nonadj', False), ('two', '1+2+3-nonadj', False),
+    ('tree', '1+2+3-nonadj', False), ('tree', '1+2+3-isolate', False),
+    ('flat', 'u+1+2-nonadj', False), ('flat-s', 'u+1+2-nonadj', False),
+    ('flat-t', 'D-rootreq', False), ('tree-t', 'u+D-rootreq', False),
+    ('tree', 'u+D-root-notsharing', False), ('flat-a', 'u-member-unknown', False),
+    ('flat-a', 'u+1-member', False), ('tree-t', 'u+1-forb-req', False),
+    ('two-t', 'u+1-forb-req', False),
     ('flat', 'u+1-none', False), ('flat', 'u+1-nopolicy', False),
     ('flat', '1+2-isolate', False), ('flat', '1+2-subtree', False),
     ('flat', 'u-1.28', False), ('flat', 'u-forb', False),
